@@ -910,6 +910,11 @@ def _process_step_result_tick(
                         )
                     )
         elif isinstance(result, AddCollectedEvent):
+            if any(isinstance(x, (StepWorkerFailed, AddWaiter)) for x in tick.result):
+                # The invocation raised (or parked on a waiter) after collecting. Its
+                # retry / replay runs collect_events again for the same event, so
+                # recording the event now would count it twice.
+                continue
             # The current state of collected events.
             collected_events = state.workers[
                 tick.step_name
